@@ -233,6 +233,248 @@ def gen_shape(rng):
             return sh
 
 
+# ---------------------------------------------------------------- operator contexts
+# A flat token sequence (operands and binary operators alternating, optional unary prefixes) is rendered WITHOUT
+# parentheses; its documented grouping is computed here by precedence climbing (Go's five levels; the error-wrapping
+# suffix and its default belong to the operand: `f()?:7 * 2` = `(f()?:7) * 2`, `-f()?:1` = `-(f()?:1)`).
+PREC = {"*": 5, "/": 5, "%": 5, "<<": 5, ">>": 5, "&": 5, "&^": 5, "+": 4, "-": 4, "|": 4, "^": 4,
+        "==": 3, "!=": 3, "<": 3, "<=": 3, ">": 3, ">=": 3, "&&": 2, "||": 1}
+ARITH = [o for o in PREC if PREC[o] >= 4]
+CMP = [o for o in PREC if PREC[o] == 3]
+# operand: ("W", kind, default) int call f1 (5) | ("B", kind, default) bool call fb (true) | ("i", n) | ("b", bool), with a list of unary prefixes
+
+
+def opnd_text(o):
+    t = o[0]
+    if t == "W":
+        return "f1()" + {"!": "!", "?": "?", "?:": "?:%d" % o[2]}[o[1]]
+    if t == "B":
+        return "fb()" + {"!": "!", "?": "?", "?:": "?:%s" % ("true" if o[2] else "false")}[o[1]]
+    if t == "i":
+        return str(o[1])
+    return "true" if o[1] else "false"
+
+
+def seq_text(seq):
+    out = []
+    for x in seq:
+        if isinstance(x, str):
+            out.append(x)
+        else:
+            pre, o = x
+            out.append("".join(pre) + opnd_text(o))
+    return " ".join(out)
+
+
+def seq_tree(seq):
+    """Precedence climbing over the flat sequence -> ("bin", op, l, r) | ("un", op, x) | operand."""
+    pos = [0]
+
+    def operand():
+        pre, o = seq[pos[0]]
+        pos[0] += 1
+        t = o
+        for u in reversed(pre):
+            t = ("un", u, t)
+        return t
+
+    def climb(minp):
+        left = operand()
+        while pos[0] < len(seq) and PREC[seq[pos[0]]] >= minp:
+            op = seq[pos[0]]
+            pos[0] += 1
+            right = climb(PREC[op] + 1)
+            left = ("bin", op, left, right)
+        return left
+    return climb(1)
+
+
+def tree_type(t):
+    k = t[0]
+    if k in ("W", "i"):
+        return "int"
+    if k in ("B", "b"):
+        return "bool"
+    if k == "un":
+        x = tree_type(t[2])
+        return x if (t[1] == "-" and x == "int") or (t[1] == "!" and x == "bool") else None
+    l, r = tree_type(t[2]), tree_type(t[3])
+    if l is None or r is None:
+        return None
+    op = t[1]
+    if PREC[op] >= 4:
+        return "int" if l == r == "int" else None
+    if PREC[op] == 3:
+        return "bool" if (l == r == "int" or (l == r == "bool" and op in ("==", "!="))) else None
+    return "bool" if l == r == "bool" else None
+
+
+class Abort(Exception):
+    pass
+
+
+def tree_eval(t, failing, tr):
+    """Go semantics on small ints; events appended to tr; raises Abort(outcome) when a wrapped call ends the evaluation."""
+    k = t[0]
+    if k in ("W", "B"):
+        if t[1] != "?":                      # the `?` call has been hoisted in front of the statement
+            tr.append("1:")
+        if failing:
+            if t[1] == "!":
+                raise Abort("panic=E/1")
+            if t[1] == "?:":
+                return t[2]
+        return 5 if k == "W" else True
+    if k in ("i", "b"):
+        return t[1]
+    if k == "un":
+        x = tree_eval(t[2], failing, tr)
+        return -x if t[1] == "-" else (not x)
+    op = t[1]
+    l = tree_eval(t[2], failing, tr)
+    if op == "&&" and not l:
+        return False
+    if op == "||" and l:
+        return True
+    r = tree_eval(t[3], failing, tr)
+    if op in ("/", "%") and r == 0:
+        raise Abort("div0")
+    if op in ("<<", ">>") and (r < 0 or r > 20):
+        raise Abort("shift")
+    import operator as O
+    f = {"*": O.mul, "+": O.add, "-": O.sub, "&": O.and_, "|": O.or_, "^": O.xor, "<<": O.lshift, ">>": O.rshift,
+         "&^": lambda a, b: a & ~b, "/": lambda a, b: abs(a) // abs(b) * (1 if (a < 0) == (b < 0) else -1),
+         "%": lambda a, b: abs(a) % abs(b) * (1 if a >= 0 else -1),
+         "==": O.eq, "!=": O.ne, "<": O.lt, "<=": O.le, ">": O.gt, ">=": O.ge, "&&": lambda a, b: b, "||": lambda a, b: b}[op]
+    return f(l, r)
+
+
+def leaves(t):
+    if t[0] in ("W", "B"):
+        return [t]
+    if t[0] == "un":
+        return leaves(t[2])
+    if t[0] == "bin":
+        return leaves(t[2]) + leaves(t[3])
+    return []
+
+
+def opctx_valid(seq):
+    t = seq_tree(seq)
+    ty = tree_type(t)
+    if ty is None:
+        return None
+    ls = leaves(t)
+    if not ls:
+        return None
+    qs = [l for l in ls if l[1] == "?"]
+    if len(qs) > 1 or (qs and ls[0][1] != "?"):
+        return None          # `?` hoists its call in front of the statement: keep it the first call, so the order is the documented one
+    if qs:
+        # ... and not behind a short-circuit operator (hoisting would evaluate a call Go skips)
+        def guarded(t, under):
+            if t[0] in ("W", "B"):
+                return under and t[1] == "?"
+            if t[0] == "un":
+                return guarded(t[2], under)
+            if t[0] == "bin":
+                return guarded(t[2], under) or guarded(t[3], under or t[1] in ("&&", "||"))
+            return False
+        if guarded(t, False):
+            return None
+    for failing in (False, True):
+        try:
+            tree_eval(t, failing, [])
+        except Abort as a:
+            if a.args[0] in ("div0", "shift"):
+                return None
+    return t, ty
+
+
+def opctx_expected(t, ty, failing):
+    tr = []
+    qs = [l for l in leaves(t) if l[1] == "?"]
+    if qs:
+        tr.append("1:")
+        if failing:
+            return "ret=0,E/1", tr
+    try:
+        v = tree_eval(t, failing, tr)
+    except Abort as a:
+        return a.args[0], tr
+    if ty == "bool":
+        return "ret=7,nil", tr + ["101:%s" % ("true" if v else "false")]
+    return "ret=7,nil", tr + ["100:%d" % v]
+
+
+def tree_model(t):
+    k = t[0]
+    if k == "W":
+        return "W" + {"!": "b", "?": "q", "?:": "d%d" % t[2]}[t[1]]
+    if k == "B":
+        return "B" + {"!": "b", "?": "q", "?:": "d%d" % (1 if t[2] else 0)}[t[1]]
+    if k == "i":
+        return "i%d" % t[1]
+    if k == "b":
+        return "t" if t[1] else "f"
+    if k == "un":
+        return ("NEG " if t[1] == "-" else "NOT ") + tree_model(t[2])
+    return "%s %s %s" % (t[1], tree_model(t[2]), tree_model(t[3]))
+
+
+def opctx_body(seq, ty):
+    if ty == "bool":
+        return "\tx := %s\n\tlgb(101, x)\n\treturn 7, nil\n" % seq_text(seq)
+    return "\tx := %s\n\tlg(100, x)\n\treturn 7, nil\n" % seq_text(seq)
+
+
+def fixed_opctx():
+    out = []
+    W = lambda k, d=7: ([], ("W", k, d))
+    B = lambda k, d=False: ([], ("B", k, d))
+    I = lambda n: ([], ("i", n))
+    T = ([], ("b", True))
+    for k in ("!", "?", "?:"):
+        for op in ARITH:
+            out += [[W(k), op, I(4)], [I(9), op, W(k)]]
+        for op in CMP:
+            out += [[W(k), op, I(5)], [I(7), op, W(k)]]
+        for op in ("&&", "||"):
+            out += [[B(k), op, T], [T, op, B(k)], [B(k), op, ([], ("b", False))]]
+        out += [[(["-"], ("W", k, 7))], [(["-"], ("W", k, 7)), "*", I(3)], [(["!"], ("B", k, False))], [(["!"], ("B", k, True)), "||", ([], ("b", False))]]
+        # two operators around the wrapped call, of lower / equal / higher precedence on either side
+        out += [[I(2), "+", W(k), "*", I(3)], [I(2), "*", W(k), "+", I(3)], [I(20), "-", W(k), "%", I(4)], [I(1), "<<", W(k), "&", I(12)],
+                [I(3), "+", W(k), "==", I(8)], [W(k), "*", I(2), "<", I(11)], [W(k), "%", I(4), "==", I(1), "&&", B("!")]]
+    out += [[([], ("W", "?:", -7)), "*", I(2)], [([], ("W", "?:", 0)), "+", ([], ("W", "?:", 0))], [([], ("W", "?:", 7)), "%", I(4), "+", ([], ("W", "!", 0))],
+            [([], ("W", "?:", 3)), "<<", I(2)], [([], ("W", "?:", 6)), "/", I(2)], [([], ("W", "?:", 6)), "&^", I(1)], [([], ("W", "?:", 6)), ">>", I(1)],
+            [([], ("W", "?:", 6)), "&", I(3)], [([], ("B", "?:", True)), "&&", ([], ("b", False))], [([], ("B", "?:", False)), "==", ([], ("b", True))]]
+    return [sq for sq in out if opctx_valid(sq)]
+
+
+def gen_opctx(rng):
+    while True:
+        n = 2 + rng.below(3)
+        seq = []
+        for i in range(n):
+            r = rng.below(6)
+            if r < 2:
+                o = ("W", rng.choice(["!", "?", "?:"]), rng.below(12) - 3)
+            elif r == 2:
+                o = ("B", rng.choice(["!", "?", "?:"]), bool(rng.below(2)))
+            elif r < 5:
+                o = ("i", rng.below(9))
+            else:
+                o = ("b", bool(rng.below(2)))
+            pre = []
+            if rng.below(5) == 0:
+                pre = ["-"] if o[0] in ("W", "i") else ["!"]
+            seq.append((pre, o))
+            if i < n - 1:
+                seq.append(rng.choice(list(PREC)))
+        if opctx_valid(seq):
+            return seq
+
+
 def gomod(repo):
     req = ""
     for l in open(os.path.join(repo, "go.mod")):
@@ -262,7 +504,12 @@ def run(ctx):
     shapes = fixed_shapes() + [gen_shape(ctx.rng) for _ in range(ctx.n(40, 600))]
     nplain = len(cases)
     cases = cases + [{"kind": sh["kind"], "n": CALLEES[sh["callee"]][1], "pos": sh["pos"], "body": shape_body(sh), "shape": sh} for sh in shapes]
-    json.dump([{k: v for k, v in c.items() if k != "shape"} for c in cases], open(os.path.join(d, "cases.json"), "w"))
+    # operator contexts: the wrapped call before / after one operator of every precedence level, unary prefixes, two operators
+    octx = fixed_opctx() + [gen_opctx(ctx.rng) for _ in range(ctx.n(40, 1500))]
+    for sq in octx:
+        t, ty = opctx_valid(sq)
+        cases.append({"kind": "op", "n": 1, "pos": "define", "body": opctx_body(sq, ty), "opctx": (sq, t, ty)})
+    json.dump([{k: v for k, v in c.items() if k not in ("shape", "opctx")} for c in cases], open(os.path.join(d, "cases.json"), "w"))
     ctx.log("phase: gen + go build")
     skip, gobuild = [], {}
     for attempt in range(4):
@@ -303,7 +550,9 @@ def run(ctx):
     mcases, keys = [], []
     for k, c in enumerate(cases):
         for failing in (False, True):
-            if "shape" in c:
+            if "opctx" in c:
+                mcases.append("opctx %d %s %s" % (1 if failing else 0, c["opctx"][2], tree_model(c["opctx"][1])))
+            elif "shape" in c:
                 mcases.append(shape_model(c["shape"], failing))
             else:
                 mcases.append("%s %d %s %d" % (KINDS[c["kind"]], c["n"], c["pos"], 1 if failing else 0))
@@ -319,7 +568,9 @@ def run(ctx):
     for (k, failing), mc in zip(keys, mcases):
         c = cases[k]
         tag = "%s n=%d %s" % (c["kind"], c["n"], c["pos"])
-        if "shape" in c:
+        if "opctx" in c:
+            tag = "opctx " + " ".join(x if isinstance(x, str) else "".join(x[0]) + x[1][0] + (x[1][1] if x[1][0] in "WB" else "") for x in c["opctx"][0])
+        elif "shape" in c:
             sh = c["shape"]
             tag = "shape %s %s %s %s" % (sh["kind"], sh["style"], CALLEES[sh["callee"]][2], "+".join(a[0] for a in sh["args"]) or "noargs")
         hist[tag] = hist.get(tag, 0) + 1
@@ -344,6 +595,15 @@ def run(ctx):
         impl_v.append("%s\t%s" % g)
         nontriv.add(mc)
         tr = g[1][len("trace=["):-1].split(" ") if g[1] != "trace=[]" else []
+        if "opctx" in c:
+            sq, t, ty = c["opctx"]
+            want, wtr = opctx_expected(t, ty, failing)
+            if g[0] != want or tr != wtr:
+                ctx.fail("opctx:" + vlib.sha(seq_text(sq)) + (":err" if failing else ":nil"),
+                         "`x := %s` (wrapped calls %s): got %s %s, documented grouping %s gives %s [%s]"
+                         % (seq_text(sq), "fail" if failing else "succeed", g[0], g[1], tree_model(t), want, " ".join(wtr)),
+                         {"expr": seq_text(sq), "grouping": tree_model(t), "failing": failing, "source": sources[k], "impl": list(g)})
+            continue
         if "shape" in c:
             want, wtr = shape_expected(c["shape"], failing)
             if g[0] != want or tr != wtr:
@@ -364,8 +624,10 @@ def run(ctx):
               rule="exhaustive grid {!,?,?:} x {0,1,2} values x {stmt,define,assign,arg,nested,ifcond} restricted to well-typed uses (%d shapes) "
                    "+ %d seeded repeats; call shapes: %d fixed + %d seeded (parenthesised / command style `f! a, b` / bare `f!`, variadic ...any and ...int "
                    "callees with and without `xs...`, two-parameter callee, methods obj.m / obj.e, zero arguments, nested f1()! / f1()?:42 and probe calls as "
-                   "arguments; callees log the number and values of the arguments they receive); each run with the wrapped call succeeding and failing, in ONE compiled program; "
-                   "non-trivial = distinct (shape, outcome) that compiled and ran" % (len(set(json.dumps(c) for c in cases[:nplain])), nplain - len(set(json.dumps(c) for c in cases[:nplain])), len(fixed_shapes()), len(shapes) - len(fixed_shapes())),
+                   "arguments; callees log the number and values of the arguments they receive); operator contexts: %d fixed + %d seeded (`x := <flat expression>` "
+                   "with f1()! / f1()? / f1()?:d / fb()... before and after one operator of every precedence level (* / %% << >> & &^ + - | ^ == != < <= > >= && ||), "
+                   "unary - and !, two operators around the call; rendered without parentheses, the documented grouping computed by precedence climbing); each run with the wrapped call succeeding and failing, in ONE compiled program; "
+                   "non-trivial = distinct (shape, outcome) that compiled and ran" % (len(set(json.dumps(c) for c in cases[:nplain])), nplain - len(set(json.dumps(c) for c in cases[:nplain])), len(fixed_shapes()), len(shapes) - len(fixed_shapes()), len(fixed_opctx()), len(octx) - len(fixed_opctx())),
               exhaustive=True, shape_histogram=hist)
     ctx.assume("errors.NewFrame(err, ...) wraps: errors.Unwrap reaches the original error (checked on the implementation by the harness through the Unwrap chain)",
                "the wrapped expression is stable: its evaluation does not depend on compiler-generated names (_gop_err, _gop_ret, _autoGo_N)")
